@@ -86,6 +86,13 @@ SB_OP(find)
     add(out, (long long)o.rc);
     if (o.rc != SB_SUCCESS)
         return;
+    // optional history: walk k blocks forward first (the lookup must not depend on where the cursor is)
+    if (t.size() > 5) {
+        long long k = tokll(t[5]);
+        for (long long i = 0; i < k; i++)
+            if (sb_binary_file_seek_to_next_block(&o.parser) != SB_SUCCESS)
+                break;
+    }
     sb_error_t rc = sb_binary_file_find_first_block_by_type(&o.parser, (sb_binary_block_type_t)tokll(t[4]));
     add(out, (long long)rc);
     if (rc != SB_SUCCESS)
